@@ -103,6 +103,8 @@ def _derived(conj):
             x, y = a[1], a[2]
             if _is_seq(x) or _is_seq(y):
                 out.append(T.eq0(T.sub(T.mk_len(x), T.mk_len(y))))
+        if a[0] == 'call' and a[1].startswith('parses:') and len(a[2]) == 1:
+            out.append(T.ge0(T.sub(T.mk_len(a[2][0]), T.I(1))))       # the empty text denotes no number / address
         if a[0] == 'call' and a[1] == 'is_prefix_of_const' and len(a[2]) == 2:
             out.append(T.ge0(T.sub(T.mk_len(a[2][1]), T.mk_len(a[2][0]))))
     return [d for d in out if d != T.TRUE]
@@ -135,8 +137,33 @@ def _canon_atom(a):
     return a
 
 
+def _prefix_views(conj):
+    """has_byte / first_byte of a prefix slice x[0..e] that provably contains x's first occurrence are those of x itself"""
+    pos = set(a for a in conj if a[0] == 'call' and a[1] == 'has_byte')
+    sub_ = {}
+    for a in conj:
+        for t in T.subterms(a):
+            if t[0] == 'call' and t[1] in ('has_byte', 'first_byte') and t[2][0][0] == 'slice' and t[2][0][2] == T.I(0) and t not in sub_:
+                sl, c = t[2]
+                x, e = sl[1], sl[3]
+                if ('call', 'has_byte', (x, c)) in pos:
+                    d = T.sub(e, ('call', 'first_byte', (x, c)))
+                    if d[0] == 'int' and d[1] >= 1:
+                        sub_[t] = T.TRUE if t[1] == 'has_byte' else ('call', 'first_byte', (x, c))
+    if not sub_:
+        return conj
+    out = []
+    for a in conj:
+        b = T.rebuild(a, sub_)
+        if b[0] == 'not' and b[1][0] == 'int':
+            b = T.bnot(b[1])
+        out.append(b)
+    return out
+
+
 def _sat_conj0(conj):
     conj = [_canon_atom(a) for a in conj]
+    conj = _prefix_views(conj)
     conj = list(conj) + _derived(conj)
     pos, negs = set(), set()
     ineqs = []      # (dict atom->Fraction, Fraction const) meaning sum + const >= 0
@@ -209,6 +236,40 @@ def _sat_conj0(conj):
             ineqs.append(({a: -1}, h))
     if not _fm_sat(ineqs):
         return False
+    # token-layout facts of split/splitn (layout.py)
+    import layout
+    lin_atoms = [a for a in conj if a[0] in ('ge0', 'eq0') or (a[0] == 'not' and a[1][0] == 'eq0')]
+    lf, alts = layout.facts(list(pos) + lin_atoms, list(negs))
+    if lf == 'unsat':
+        return False
+    if lf:
+        for m, c in lf:
+            for a in m:
+                l, h = atom_bounds(a)
+                if l is not None:
+                    ineqs.append(({a: 1}, -l))
+                if h is not None:
+                    ineqs.append(({a: -1}, h))
+        ineqs = ineqs + lf
+        if not _fm_sat(ineqs):
+            return False
+        for cases in alts:
+            ok_case = None
+            for case in cases:
+                extra = []
+                for m, c in case:
+                    for a in m:
+                        l, h = atom_bounds(a)
+                        if l is not None:
+                            extra.append(({a: 1}, -l))
+                        if h is not None:
+                            extra.append(({a: -1}, h))
+                if _fm_sat(ineqs + case + extra):
+                    ok_case = case
+                    break
+            if ok_case is None:
+                return False
+            # several alternative-sets are checked independently (sound: each is necessary)
     # disequalities: unsat if the remaining constraints force lin == 0
     for l in diseq:
         c0, m = T.to_lin(l)
